@@ -145,14 +145,14 @@ func zzCConn(isClient, is13 bool, base int) *Conn {
 // Conn.bufferHandshakeRecord (syncFragmentBufferHandshakeSequence, FragmentBuffer.Push, Pop loop, cache insert):
 // two messages (message_seq base and base+1, base 0 or 1 = handshake receive sequence already reached),
 // lengths 0..NLC, arbitrary bodies/types/epochs, client or server side, DTLS 1.2 or 1.3 state; NKC records
-// each carrying one arbitrary piece of either message (one partition per message; any order, duplicates,
+// each carrying one arbitrary piece of either message, the last record optionally two pieces (one partition per message; any order, duplicates,
 // interleaving, pieces of already cached messages). After every record the list of insertions into the
 // handshake cache equals exactly the list of messages whose last byte has arrived, in sequence order: each
 // message is inserted once, never before it is complete, never a second time on retransmitted pieces, with
 // data = header(type, L, seq, 0, L) + original body, its epoch, sequence, type and the peer's role; records
 // of already cached messages are reported as retransmit.
 //
-//symgo:entry covers=cached_one,cached_two_at_once,cached_none_yet,retransmit_not_cached_again,complete_waiting_for_earlier,v12,v13
+//symgo:entry covers=packed_record,cached_one,cached_two_at_once,cached_none_yet,retransmit_not_cached_again,complete_waiting_for_earlier,v12,v13
 func zzCacheOnce() {
 	isClient := zzsymBool("isClient")
 	is13 := zzsymChoice("is13", 2) == 1
@@ -172,9 +172,28 @@ func zzCacheOnce() {
 		}
 		wasDelivered := m.delivered
 		wasComplete := m.zzCComplete()
-		buf := zzCRecord(m.epoch, uint8(i), m.zzCPiece(off, n))
+		payload := m.zzCPiece(off, n)
+		// other stacks pack several handshake fragments into one record (RFC 6347 4.2.3): the LAST record may
+		// carry a second piece, of either message, after the first one - in particular a retransmitted piece
+		// of a cached message followed by the piece that completes the next message
+		var m2 *zzCMsg
+		off2, n2 := 0, 0
+		if i == zzsymParam("NKC")-1 && zzsymChoice("packed", 2) == 1 {
+			var ok2 bool
+			m2, off2, n2, ok2 = zzCChoosePiece(msgs)
+			if !ok2 || m2.epoch != m.epoch {
+				return
+			}
+			if m2 == m && !(off2 == off && n2 == n) && !(off2+n2 <= off || off+n <= off2) {
+				return // the two pieces of one record belong to the same partition too (honest sender)
+			}
+			payload = append(payload, m2.zzCPiece(off2, n2)...)
+			wasDelivered = wasDelivered || m2.delivered
+			zzsymCover("packed_record")
+		}
+		buf := zzCRecord(m.epoch, uint8(i), payload)
 		hdr := &recordlayer.Header{ContentType: protocol.ContentTypeHandshake, Version: protocol.Version1_2,
-			Epoch: m.epoch, SequenceNumber: uint64(i), ContentLen: uint16(12 + n)}
+			Epoch: m.epoch, SequenceNumber: uint64(i), ContentLen: uint16(len(payload))}
 		outcome, handled, _ := c.bufferHandshakeRecord(buf, hdr, func() bool { marks++; return true })
 		zzsymAssert(handled, "record_handled")
 		zzsymAssert(outcome.containsHandshake, "record_contains_handshake")
@@ -184,6 +203,9 @@ func zzCacheOnce() {
 		}
 
 		m.zzCArrive(off, n)
+		if m2 != nil {
+			m2.zzCArrive(off2, n2)
+		}
 		before := next
 		for next < len(msgs) && msgs[next].zzCComplete() {
 			msgs[next].delivered = true
